@@ -19,7 +19,7 @@ MAY_PUBLISH = {
                       },
     'publish_claim': {('proof', 'execute_claims_phase'): 'the declared claims, once each',
                       ('deserialize', 'deserialize_instructions'): 'replay of a serialized stream'},
-    'publish_proof': {('proof', 'proved_exp'): 'ProofExp.publish_proof thunk',
+    'publish_proof': {('proof', 'publish_proof'): 'ProofExp.publish_proof (its thunk)',
                       ('proof', 'execute_proofs_phase'): 'through ProofExp.publish_proof',
                       ('metamath.translate', 'exec_proof'): 'the translated target proof'},
 }
@@ -43,8 +43,9 @@ def _only_called_from(mi, fn: str, allowed: set, _seen=None) -> bool:
 
 
 def enclosing(tree, node) -> str:
-    from ..core.pyfacts import enclosing_def
-    f_ = enclosing_def(tree, node)
+    # the function a call site belongs to is the outermost one it is written in: a nested closure has no licence of its own
+    from ..core.pyfacts import enclosing_top
+    f_ = enclosing_top(tree, node)
     return f_.name if f_ is not None else '<module>'
 
 
